@@ -1,4 +1,5 @@
 import H2V.Lemmas.ConnFlowPSendFr
+import H2V.Lemmas.ConnFlowPClone
 /-
   ConnFlowP, part 6 — `SafeInv` through the flow-changing functions of `prioritize.rs` / `send.rs`:
   `send_data`, `recv_stream_window_update`, `recv_connection_window_update`, `pop_frame` (the only
@@ -97,11 +98,16 @@ theorem SafeInv.recvConnectionWindowUpdate {s : Streams} (h : SafeInv s) (inc : 
 
 -- ===================================================================== pop_frame
 
-theorem sendData_kf (x : Stream) (len m : Nat) :
-    (x.sendData len m).1.key = x.key ∧ (x.sendData len m).1.sendFlow = (x.sendFlow.sendData len).1 := by
-  unfold Stream.sendData; dsimp only; split
+/-- what a `Stream::send_data` (with any capacity function) leaves of key and send flow -/
+theorem sendDataC_kf (capf : Stream → Nat → Nat) (x : Stream) (len m : Nat) :
+    (sendDataC capf x len m).1.key = x.key ∧ (sendDataC capf x len m).1.sendFlow = (x.sendFlow.sendData len).1 := by
+  rw [sendDataC_def]; dsimp only; split
   · exact ⟨(notifyCapacity_kf _).1, (notifyCapacity_kf _).2⟩
   · exact ⟨rfl, rfl⟩
+
+theorem sendData_kf (x : Stream) (len m : Nat) :
+    (x.sendData len m).1.key = x.key ∧ (x.sendData len m).1.sendFlow = (x.sendFlow.sendData len).1 := by
+  rw [sendDataC.eq]; exact sendDataC_kf _ x len m
 
 /-- a stream sends `n` octets it has capacity and window for -/
 theorem flOk_send {f : FlowControl} (hf : FlOk f) {n : Nat} (h1 : n ≤ f.available.asSize)
@@ -159,9 +165,10 @@ theorem set_of_none {a : Store} {x : Stream} (h : a.get? x.key = none) : (a.set 
 theorem emit_safe {s1 : Streams} (h : SafeInv s1) (id len : Nat)
     (hlen1 : len ≤ (s1.stream id).sendFlow.available.asSize)
     (hlen2 : len = 0 ∨ len ≤ (s1.stream id).sendFlow.windowSz)
-    (S5 : Streams) (hstore : S5.store = s1.store.set ((s1.stream id).sendData len s1.prio.maxBufferSize).1)
+    (st' : Stream) (hk : st'.key = (s1.stream id).key)
+    (hfl : st'.sendFlow = ((s1.stream id).sendFlow.sendData len).1)
+    (S5 : Streams) (hstore : S5.store = s1.store.set st')
     (hflow : S5.prio.flow = ((s1.prio.flow.assignCapacity len).1.sendData len).1) : SafeInv S5 := by
-  have hkf := sendData_kf (s1.stream id) len s1.prio.maxBufferSize
   cases hget : s1.store.get? id with
   | none =>
     have hb : s1.stream id = { key := id, id := 0 } := by unfold Streams.stream; rw [hget]; rfl
@@ -170,109 +177,196 @@ theorem emit_safe {s1 : Streams} (h : SafeInv s1) (id len : Nat)
       have : ({ key := id, id := 0 } : Stream).sendFlow.available.asSize = 0 := rfl
       omega
     subst hl0
-    have hk : ((s1.stream id).sendData 0 s1.prio.maxBufferSize).1.key = id := by rw [hkf.1, hb]
-    have hslab : S5.store.slab = s1.store.slab := by rw [hstore]; exact set_of_none (by rw [hk]; exact hget)
+    have hk' : st'.key = id := by rw [hk, hb]
+    have hslab : S5.store.slab = s1.store.slab := by rw [hstore]; exact set_of_none (by rw [hk']; exact hget)
     have hnext : S5.store.nextKey = s1.store.nextKey := by rw [hstore]; rfl
     have hc := conn_assign (f := s1.prio.flow) h.a0 (n := 0) (by have := h.whi; have := h.av_le; omega32)
-    have hfl : S5.prio.flow.available.val = s1.prio.flow.available.val ∧
+    have hfl' : S5.prio.flow.available.val = s1.prio.flow.available.val ∧
         S5.prio.flow.windowSize.val = s1.prio.flow.windowSize.val := by
       rw [hflow, sendData_zero]; exact ⟨by rw [hc.1]; simp, by rw [hc.2]⟩
     refine ⟨Int.le_refl _, ⟨by rw [hslab]; exact h.keys.1, by rw [hslab, hnext]; exact h.keys.2⟩,
-      by rw [hslab]; exact h.st, by rw [hfl.1]; exact h.a0, by rw [hfl.2]; exact h.whi, ?_⟩
-    rw [hslab, hfl.1, hfl.2]; exact h.ledger
+      by rw [hslab]; exact h.st, by rw [hfl'.1]; exact h.a0, by rw [hfl'.2]; exact h.whi, ?_⟩
+    rw [hslab, hfl'.1, hfl'.2]; exact h.ledger
   | some st =>
     have hm := get?_mem hget
-    rw [stream_of_get hget] at hlen1 hlen2 hkf hstore
+    rw [stream_of_get hget] at hlen1 hlen2 hk hfl
     have hok := h.st st hm.1
     have hs := flOk_send hok hlen1 hlen2
     have hle := h.st_le hm.1
     have hl : (len : Int) ≤ st.sendFlow.available.val := by
       rw [asSize_eq] at hlen1; have := hok.av0; omega
     have hc := conn_send (f := s1.prio.flow) h.a0 (n := len) (by omega) h.whi
-    have hu : Upd s1 S5 id st (st.sendData len s1.prio.maxBufferSize).1 :=
-      ⟨hget, hkf.1.trans hm.2, by rw [hstore], by rw [hstore]; rfl⟩
-    refine h.upd hu (Int.le_refl _) (by rw [hkf.2]; exact hs.1) ?_ ?_ ?_
+    have hu : Upd s1 S5 id st st' := ⟨hget, hk.trans hm.2, by rw [hstore], by rw [hstore]; rfl⟩
+    refine h.upd hu (Int.le_refl _) (by rw [hfl]; exact hs.1) ?_ ?_ ?_
     · rw [hflow, hc.1]; exact h.a0
     · rw [hflow, hc.2.1]; have := h.whi; omega
-    · rw [hflow, hc.1, hc.2.1, hkf.2, hs.2.1]; omega
-
-/-- `pop_frame`'s loop body, with the recursive call abstracted -/
-def popBody (rec : Streams → Nat → Streams × Option Streams.OutFrame) (s : Streams) (maxLen : Nat) :
-    Streams × Option Streams.OutFrame :=
-  match s.qPop .pendingSend with
-  | (s, none) => (s, none)
-  | (s, some id) =>
-    let st := s.stream id
-    let isPendingReset := st.isPendingResetExpiration
-    let finish := fun (s : Streams) (f : Streams.OutFrame) =>
-      let st := s.stream id
-      let s := if !st.pendingSend.isEmpty || st.state.isScheduledReset then (s.qPush .pendingSend id).1 else s
-      (s.transitionAfter id isPendingReset, some f)
-    match st.pendingSend with
-    | .data sz eos :: rest =>
-      let discard : Bool := match st.state.getScheduledReset with
-        | some reason => reason != NO_ERROR
-        | none => false
-      if discard then
-        let s := (s.clearQueue id).reclaimAllCapacity id
-        rec (s.qPush .pendingSend id).1 maxLen
-      else
-        let streamCapacity := st.sendFlow.available
-        if sz > 0 && streamCapacity.eqUsize 0 then
-          rec s maxLen
-        else
-          let len := usizeAsU32 (min (min sz maxLen) streamCapacity.asSize)
-          if len > 0 && len > st.sendFlow.windowSz then
-            rec s maxLen
-          else
-            let s := s.modStream id fun st => { st with pendingSend := rest }
-            let (st', w, bad) := (s.stream id).sendData len s.prio.maxBufferSize
-            let s := (s.setStream st').wake w
-            let s := if bad then s.panic "assertion failed: self.window_size.0 >= sz as i32 (stream)" else s
-            let s := s.modPrio fun p => { p with flow := (p.flow.assignCapacity len).1 }
-            let (fl, r) := s.prio.flow.sendData len
-            let s := s.modPrio fun p => { p with flow := fl }
-            let s := match r with
-              | .error .assertFailed => s.panic "assertion failed: self.window_size.0 >= sz as i32 (connection)"
-              | _ => s
-            let flagEos := if sz > len then false else eos
-            finish s (.data len flagEos { key := id, sid := st.id, rest := sz - len, eos := eos })
-    | .headers heos fields :: rest =>
-      finish (s.modStream id fun st => { st with pendingSend := rest }) (.headers st.id heos fields)
-    | .reset reason :: rest =>
-      finish (s.modStream id fun st => { st with pendingSend := rest }) (.reset st.id reason)
-    | .pushPromise pk pid fields :: rest =>
-      let s := s.modStream id fun st => { st with pendingSend := rest }
-      match s.store.findKey? pid with
-      | none =>
-        let st := s.stream id
-        let s := if !st.pendingSend.isEmpty || st.state.isScheduledReset then (s.qPush .pendingSend id).1 else s
-        rec (s.transitionAfter id isPendingReset) maxLen
-      | some pushed =>
-        let _ := pk
-        let s := s.modStream pushed fun st => { st with isPendingPush := false }
-        let s :=
-          if !(s.stream pushed).pendingSend.isEmpty then
-            if s.counts.canIncNumSendStreams then (((s.incNumSendStreams pushed).qPush .pendingSend pushed).1)
-            else s.queueOpen pushed
-          else s
-        finish s (.pushPromise st.id pid fields)
-    | [] =>
-      match st.state.getScheduledReset with
-      | some reason =>
-        let s := s.modStreamW id fun st => st.setReset reason .library
-        finish s (.reset st.id reason)
-      | none =>
-        rec (s.transitionAfter id isPendingReset) maxLen
+    · rw [hflow, hc.1, hc.2.1, hfl, hs.2.1]; omega
 
 theorem usizeAsU32_le (x : Nat) : usizeAsU32 x ≤ x := by
   unfold usizeAsU32 U32_MOD; omega
 
-theorem SafeInv.popBody (rec : Streams → Nat → Streams × Option Streams.OutFrame)
-    (hrec : ∀ t m, SafeInv t → SafeInv (rec t m).1) {s : Streams} (h : SafeInv s) (maxLen : Nat) :
-    SafeInv (popBody rec s maxLen).1 := by
-  unfold popBody
-  dsimp only
-  sorry
+/-- a function that behaves like `Stream::send_data` on key and send flow -/
+def SdOk (sd : Stream → Nat → Nat → Stream × List String × Bool) : Prop :=
+  ∀ x len m, (sd x len m).1.key = x.key ∧ (sd x len m).1.sendFlow = (x.sendFlow.sendData len).1
+
+/-- the DATA arm of `pop_frame` from the point where a chunk of `len` octets is cut off the front
+    frame: charge the stream (`Stream::send_data`), then the connection (`assign_capacity` +
+    `send_data`) -/
+def emitC (sd : Stream → Nat → Nat → Stream × List String × Bool) (s : Streams) (id len : Nat) (rest : List SFrame) :
+    Streams :=
+  let s := s.modStream id fun st => { st with pendingSend := rest }
+  let (st', w, bad) := sd (s.stream id) len s.prio.maxBufferSize
+  let s := (s.setStream st').wake w
+  let s := if bad then s.panic "assertion failed: self.window_size.0 >= sz as i32 (stream)" else s
+  let s := s.modPrio fun p => { p with flow := (p.flow.assignCapacity len).1 }
+  let (fl, r) := s.prio.flow.sendData len
+  let s := s.modPrio fun p => { p with flow := fl }
+  match r with
+    | .error .assertFailed => s.panic "assertion failed: self.window_size.0 >= sz as i32 (connection)"
+    | _ => s
+
+theorem SafeInv.emitC {sd : Stream → Nat → Nat → Stream × List String × Bool} (hsd : SdOk sd) {s : Streams}
+    (h : SafeInv s) (id len : Nat) (rest : List SFrame)
+    (h1 : len ≤ (s.stream id).sendFlow.available.asSize)
+    (h2 : len = 0 ∨ len ≤ (s.stream id).sendFlow.windowSz) : SafeInv (emitC sd s id len rest) := by
+  have e := stream_modStream_flow (s := s) id id (fun st : Stream => { st with pendingSend := rest }) (fun _ => ⟨rfl, rfl⟩)
+  have hs1 : SafeInv (s.modStream id fun st => { st with pendingSend := rest }) :=
+    h.fr ((Fr.refl _).modStream _ _ (fun _ => ⟨rfl, rfl⟩))
+  have hk := hsd ((s.modStream id fun st => { st with pendingSend := rest }).stream id) len
+    (s.modStream id fun st => { st with pendingSend := rest }).prio.maxBufferSize
+  refine emit_safe hs1 id len (by rw [e]; exact h1) (by rw [e]; exact h2) _ hk.1 hk.2 _ ?_ ?_
+  · unfold ConnFlowP.emitC; dsimp only
+    split <;> split <;> simp only [store_modPrio, store_wake, store_setStream, panic_store]
+  · unfold ConnFlowP.emitC; dsimp only
+    split <;> split <;>
+      simp only [prio_modPrio, prio_wake, prio_setStream, panic_prio, modStream_prio]
+
+/-- `popFrameC_succ` with the DATA arm folded into `emitC` -/
+theorem popFrameC_succ' (sd : Stream → Nat → Nat → Stream × List String × Bool) (fuel : Nat) (s : Streams) (maxLen : Nat) :
+    popFrameC sd (fuel + 1) s maxLen =
+    ((match s.qPop .pendingSend with
+    | (s, none) => (s, none)
+    | (s, some id) =>
+      let st := s.stream id
+      let isPendingReset := st.isPendingResetExpiration
+      let finish := fun (s : Streams) (f : Streams.OutFrame) =>
+        let st := s.stream id
+        let s := if !st.pendingSend.isEmpty || st.state.isScheduledReset then (s.qPush .pendingSend id).1 else s
+        (s.transitionAfter id isPendingReset, some f)
+      match st.pendingSend with
+      | .data sz eos :: rest =>
+        let discard : Bool := match st.state.getScheduledReset with
+          | some reason => reason != NO_ERROR
+          | none => false
+        if discard then
+          let s := (s.clearQueue id).reclaimAllCapacity id
+          popFrameC sd fuel (s.qPush .pendingSend id).1 maxLen
+        else
+          let streamCapacity := st.sendFlow.available
+          if sz > 0 && streamCapacity.eqUsize 0 then
+            popFrameC sd fuel s maxLen
+          else
+            let len := usizeAsU32 (min (min sz maxLen) streamCapacity.asSize)
+            if len > 0 && len > st.sendFlow.windowSz then
+              popFrameC sd fuel s maxLen
+            else
+              let flagEos := if sz > len then false else eos
+              finish (emitC sd s id len rest) (.data len flagEos { key := id, sid := st.id, rest := sz - len, eos := eos })
+      | .headers heos fields :: rest =>
+        finish (s.modStream id fun st => { st with pendingSend := rest }) (.headers st.id heos fields)
+      | .reset reason :: rest =>
+        finish (s.modStream id fun st => { st with pendingSend := rest }) (.reset st.id reason)
+      | .pushPromise pk pid fields :: rest =>
+        let s := s.modStream id fun st => { st with pendingSend := rest }
+        match s.store.findKey? pid with
+        | none =>
+          let st := s.stream id
+          let s := if !st.pendingSend.isEmpty || st.state.isScheduledReset then (s.qPush .pendingSend id).1 else s
+          popFrameC sd fuel (s.transitionAfter id isPendingReset) maxLen
+        | some pushed =>
+          let _ := pk
+          let s := s.modStream pushed fun st => { st with isPendingPush := false }
+          let s :=
+            if !(s.stream pushed).pendingSend.isEmpty then
+              if s.counts.canIncNumSendStreams then (((s.incNumSendStreams pushed).qPush .pendingSend pushed).1)
+              else s.queueOpen pushed
+            else s
+          finish s (.pushPromise st.id pid fields)
+      | [] =>
+        match st.state.getScheduledReset with
+        | some reason =>
+          let s := s.modStreamW id fun st => st.setReset reason .library
+          finish s (.reset st.id reason)
+        | none =>
+          popFrameC sd fuel (s.transitionAfter id isPendingReset) maxLen) : Streams × Option Streams.OutFrame) := by
+  rw [popFrameC_succ]; rfl
+
+theorem SafeInv.popFrameC (sd : Stream → Nat → Nat → Stream × List String × Bool) (hsd : SdOk sd) (fuel : Nat) :
+    ∀ {s : Streams}, SafeInv s → ∀ maxLen, SafeInv (popFrameC sd fuel s maxLen).1 := by
+  induction fuel with
+  | zero => intro s h m; rw [popFrameC_zero]; exact h
+  | succ n ih =>
+    intro s h maxLen
+    rw [popFrameC_succ']
+    dsimp only
+    safe_auto
+    all_goals (
+      have hc := ‹¬(decide (_ > 0) && decide (_ > _)) = true›
+      refine SafeInv.emitC hsd ?_ _ _ _ (Nat.le_trans (usizeAsU32_le _) (Nat.min_le_right _ _)) ?_
+      · safe_auto
+      · simp only [Bool.and_eq_true, decide_eq_true_eq, not_and, Nat.not_lt] at hc
+        omega)
+
+theorem sdOk_sendData : SdOk Stream.sendData := sendData_kf
+
+theorem SafeInv.popFrame {s : Streams} (h : SafeInv s) (fuel maxLen : Nat) :
+    SafeInv (Streams.popFrame fuel s maxLen).1 := by
+  rw [popFrameC.eq]; exact SafeInv.popFrameC _ sdOk_sendData fuel h maxLen
+macro_rules | `(tactic| safe_peel) => `(tactic| with_reducible apply SafeInv.popFrame)
+
+-- ===================================================================== buffer_pending, resets, trailers
+
+theorem SafeInv.prioBufferPendingLoop (fuel : Nat) :
+    ∀ {s : Streams}, SafeInv s → ∀ w, SafeInv (Streams.prioBufferPendingLoop fuel s w).1 := by
+  induction fuel with
+  | zero => intro s h w; unfold Streams.prioBufferPendingLoop; safe_auto
+  | succ n ih => intro s h w; unfold Streams.prioBufferPendingLoop; dsimp only; safe_auto
+macro_rules | `(tactic| safe_peel) => `(tactic| with_reducible apply SafeInv.prioBufferPendingLoop)
+
+theorem SafeInv.prioBufferPending {s : Streams} (h : SafeInv s) (fuel : Nat) (w : Writer) :
+    SafeInv (Streams.prioBufferPending fuel s w).1 := by
+  safe_by Streams.prioBufferPending
+macro_rules | `(tactic| safe_peel) => `(tactic| with_reducible apply SafeInv.prioBufferPending)
+
+theorem SafeInv.sendSendReset {s : Streams} (h : SafeInv s) (id : Nat) (r : Reason) (i : Initiator) :
+    SafeInv (s.sendSendReset id r i) := by
+  safe_by Streams.sendSendReset
+macro_rules | `(tactic| safe_peel) => `(tactic| with_reducible apply SafeInv.sendSendReset)
+
+theorem SafeInv.scheduleImplicitReset {s : Streams} (h : SafeInv s) (id : Nat) (r : Reason) :
+    SafeInv (s.scheduleImplicitReset id r) := by
+  safe_by Streams.scheduleImplicitReset
+macro_rules | `(tactic| safe_peel) => `(tactic| with_reducible apply SafeInv.scheduleImplicitReset)
+
+theorem SafeInv.sendTrailers {s : Streams} (h : SafeInv s) (id : Nat) (f : List Hpack.Field) :
+    SafeInv (s.sendTrailers id f).1 := by
+  safe_by Streams.sendTrailers
+macro_rules | `(tactic| safe_peel) => `(tactic| with_reducible apply SafeInv.sendTrailers)
+
+theorem SafeInv.sendHandleError {s : Streams} (h : SafeInv s) (id : Nat) : SafeInv (s.sendHandleError id) := by
+  safe_by Streams.sendHandleError
+macro_rules | `(tactic| safe_peel) => `(tactic| with_reducible apply SafeInv.sendHandleError)
+
+theorem SafeInv.sendRecvStreamWindowUpdate {s : Streams} (h : SafeInv s) (id inc : Nat) (hinc : inc ≤ 2147483647) :
+    SafeInv (s.sendRecvStreamWindowUpdate id inc).1 := by
+  unfold Streams.sendRecvStreamWindowUpdate
+  have h1 := h.prioRecvStreamWindowUpdate id inc hinc
+  split
+  · rename_i s' e he
+    rw [he] at h1
+    exact SafeInv.sendSendReset h1 _ _ _
+  · rename_i s' _ he
+    rw [he] at h1
+    exact h1
 
 end H2V.Lemmas.ConnFlowP
